@@ -49,3 +49,16 @@ add("C09", "exploration",
     "Operand kinds per opcode are my reading of IC10; opcode set cross-checked against webapp/src/ic10.json.",
     "property-based testing (Hypothesis): grammar/ISA validity predicate + literal round-trip",
     "DESIGN.md section 9")
+add("C05", "exploration",
+    "Generated call-heavy programs with adversarial function/module identifiers: structural label check, an "
+    "independent label resolver applied to the labelled output must reproduce the remove_labels output line for line, "
+    "and both outputs must behave alike on the reference machine with every return landing behind its call.",
+    "Identifier sets are repaired to avoid the open label-collision findings; comments off for the textual comparison.",
+    "property-based metamorphic testing (Hypothesis): independent label resolver + differential execution",
+    "DESIGN.md section 5")
+add("C17", "exploration",
+    "Independent recount of lines, CRLF byte size and distinct register tokens of every successful result of generated "
+    "and degenerate programs under drawn option vectors.",
+    "Generated programs never name registers explicitly; both byte and character size admitted for non-ASCII comments.",
+    "property-based testing (Hypothesis): independent recomputation oracle",
+    "DESIGN.md section 17")
